@@ -293,3 +293,5 @@ Theorem c08_acts_obs : forall fixed l s,
   Forall2 (fun a o => (a = ASample <-> ob_sample o <> None) /\
                       (ob_result o <> RNone -> a = AEmit)) l (snd (acts fixed s l)).
 Proof. exact acts_obs. Qed.
+
+(* Note after the second read-only review of these pins (selftest/audit/REVIEW-2-2026-10-02.md): c08_act_spec / c15_sample_obs unfold Queue.act (they pin the harness's view); c08_stuck_or_progress is the decidability of 'stuck' (its information is that worker-side steps answer RNone). *)
